@@ -233,9 +233,36 @@ fn generate_crowd(seed: u64, index: u64) -> History {
     History { limit, duration_ns: d, n_keys: crowd + 1, tempo: "crowd".into(), keying: "crowd".into(), attempts, dup_every: 3, dup_offset: 0 }
 }
 
+/// Very long silences: a key uses up its budget and comes back after 2^31 ms, 2^32 ms (49.7 days),
+/// multiples of it, a year - a little more, a little less. Whatever width the implementation measures
+/// time in, "idle for at least twice the duration" means admitted.
+fn generate_long_idle(seed: u64, index: u64) -> History {
+    let mut rng = Rng::stream(seed, index ^ 0x1d1e_0000);
+    let limit = *rng.pick(&[1u64, 2, 3]);
+    let d = *rng.pick(&[1_000_000_000u64, 10_000_000_000, 60_000_000_000]);
+    const MS: u64 = 1_000_000;
+    let mut attempts: Vec<(u64, u32)> = Vec::new();
+    let mut spend = |attempts: &mut Vec<(u64, u32)>, first_dt: u64| {
+        for i in 0..limit + 1 {
+            attempts.push((if i == 0 { first_dt } else { 1_000 }, 0));
+        }
+    };
+    spend(&mut attempts, 0);
+    for silence_ms in [1u64 << 31, (1 << 32) - 1, 1 << 32, (1 << 32) + 1, (1 << 32) + d / MS / 3, 2 * (1u64 << 32) + d / MS / 2, 365 * 86_400_000, (1u64 << 33) + 7] {
+        // back after the silence (admitted), then the budget is used up again
+        spend(&mut attempts, silence_ms * MS);
+        // another key in between keeps the limiter busy
+        attempts.push((d / 7, 1));
+    }
+    History { limit, duration_ns: d, n_keys: 2, tempo: "long-idle".into(), keying: "long-idle".into(), attempts, dup_every: 2, dup_offset: 0 }
+}
+
 fn generate(seed: u64, index: u64) -> History {
     if index % 1000 == 777 {
         return generate_crowd(seed, index);
+    }
+    if index % 1000 == 555 {
+        return generate_long_idle(seed, index);
     }
     let mut rng = Rng::stream(seed, index);
     let limit = *rng.pick(&LIMITS);
